@@ -8,10 +8,15 @@ Local Open Scope Z_scope.
 
 Definition opt_of_res {A} (r : res A) : option A := match r with Ok a => Some a | Err _ => None end.
 
+(** crop_samples returns samples[lo:hi]; the translation is the pair (lo, hi) of that slice, whatever the locals
+    holding the bounds are called.  The model's (begin, count) gives the slice (begin, begin + count). *)
+Definition slice_of_bounds (r : option (Z * Z)) : option (Z * Z) :=
+  match r with Some (a, n) => Some (a, a + n) | None => None end.
+
 Lemma trf_crop_bounds_eq rate b t :
-  opt_of_res (crop_bounds rate b t) = trf_crop_bounds rate b t.
+  slice_of_bounds (opt_of_res (crop_bounds rate b t)) = trf_crop_slice rate b t.
 Proof.
-  unfold crop_bounds, trf_crop_bounds, py_int.
+  unfold crop_bounds, trf_crop_slice, py_int, slice_of_bounds.
   first [ solve [ destruct (finb (b * f_of_Z rate)%float); [|reflexivity]; cbn zeta;
                   destruct (finb (t * f_of_Z rate)%float); reflexivity ]
         | unfold opt_of_res; trf_solve ].
